@@ -142,8 +142,9 @@ pub fn pool_request(v: Version, k: usize) -> Vec<u8> {
 ///  3 / 4: over-long (1600 bytes) whose first 1500 bytes are a well-formed classic / IETF request
 ///  5: a valid classic request cut to 1020 bytes (below the minimum)
 ///  6: a framed request naming only the classic version number (no supported version for a frame)
+///  7 / 8: a valid classic request followed by one / three stray bytes (length not a multiple of 4)
 pub fn bad_datagram(variant: usize) -> Vec<u8> {
-    match variant % 7 {
+    match variant % 9 {
         0 => {
             // right length, not a message
             let mut d = vec![0x03, 0, 0, 0, 0xff, 0xff, 0xff, 0xff];
@@ -163,6 +164,11 @@ pub fn bad_datagram(variant: usize) -> Vec<u8> {
             d
         }
         6 => rtref::responder::ietf_request(&[0, 0, 0, 0], None, &nonce(0x9103, 32), 1024),
+        7 | 8 => {
+            let mut d = rtref::responder::classic_request(&nonce(0x9104, 64), 1024);
+            d.extend(std::iter::repeat(0x5a).take(if variant % 9 == 7 { 1 } else { 3 }));
+            d
+        }
         _ => {
             let mut d = rtref::responder::classic_request(&nonce(0x9102, 64), 1024);
             d.truncate(1020);
